@@ -916,6 +916,26 @@ theorem gen_merge_misaligned_raises {x y : LI String} {x0 xn y0 yn : Rat × Rat 
   rw [merge_labeled_intervals_eq_model, merge_misaligned_raises h1 h2 h3 h4 hmis]
   rfl
 
+/-- C12 on the translated `adjust_intervals`: cutting one interval of the annotation in two gives the same exception, the
+    same rows, or the same rows with one row cut in two (the model results below ARE what the translated function
+    returns, by `adjust_intervals_eq_model`) -/
+theorem gen_adjust_intervals_split (y₁ y₂ : LI String) {s r e : Rat} (l : String) (h1 : s ≤ r) (h2 : r ≤ e)
+    (hord : ∀ row ∈ y₂, e ≤ row.1) (tmin tmax : Option Rat) (sl el : String) :
+    ∃ r1 r2 : Py (LI String),
+      Mir.Gen.util.adjust_intervals (ivals (y₁ ++ (s, r, l) :: (r, e, l) :: y₂))
+          (some (labels (y₁ ++ (s, r, l) :: (r, e, l) :: y₂))) tmin tmax sl el
+        = r1.map (fun out => (ivals out, some (labels out))) ∧
+      Mir.Gen.util.adjust_intervals (ivals (y₁ ++ (s, e, l) :: y₂)) (some (labels (y₁ ++ (s, e, l) :: y₂))) tmin tmax sl el
+        = r2.map (fun out => (ivals out, some (labels out))) ∧
+      PyRel SplitOrEq r1 r2 := by
+  refine ⟨_, _, ?_, ?_, Mir.C12.adjust_intervals_split y₁ y₂ l h1 h2 hord tmin tmax sl el⟩
+  · cases y₁ with
+    | nil => exact adjust_intervals_eq_model _ _ tmin tmax sl el
+    | cons a y => exact adjust_intervals_eq_model _ _ tmin tmax sl el
+  · cases y₁ with
+    | nil => exact adjust_intervals_eq_model _ _ tmin tmax sl el
+    | cons a y => exact adjust_intervals_eq_model _ _ tmin tmax sl el
+
 /-- the translated `generate_labels`: one synthetic label `prefix ++ str(i)` per item -/
 theorem generate_labels_spec (items : List Rat) (pre : String) :
     Mir.Gen.util.generate_labels items pre = .ok ((List.range items.length).map fun n => pre ++ toString n) := rfl
